@@ -3,21 +3,34 @@
    every arrival schedule, peer close at every point, sync / async response, body timeout,
    shutdown. *)
 EXTENDS HttpWires
-CONSTANTS Modes, Responds, MaxBodies, MaxHdrs, Overrides, Decomps, Timeouts, Shuts, Heads
+CONSTANTS Modes, Responds, MaxBodies, MaxHdrs, Overrides, Decomps, Timeouts, Shuts, Heads,
+          MCGz            \* indices of GzTable whose members are sent as request / response bodies when decompress is on
 
+MCGzTable == SubSeq(GzTable, 1, 3)          \* without the 2000-byte bomb (kept small: the table is part of every state)
 CfgSet == {c \in [mode : Modes, maxHdr : MaxHdrs, maxBody : MaxBodies, override : Overrides, decompress : Decomps,
-                  gz : {GzTable}, head : Heads, respond : Responds, btimeout : Timeouts, shut : Shuts] :
+                  gz : {<<>>, MCGzTable}, head : Heads, respond : Responds, btimeout : Timeouts, shut : Shuts] :
               /\ c.mode = "client" => (c.respond = "sync" /\ ~c.btimeout /\ ~c.shut /\ c.override = None)
-              /\ c.mode = "server" => ~c.head}
+              /\ c.mode = "server" => ~c.head
+              /\ c.gz = (IF c.decompress THEN MCGzTable ELSE <<>>)}
 
 VARIABLE full          \* what a reader given the whole wire (and then EOF) delivers - computed once
 MCInit == /\ \E c \in CfgSet :
                \/ c.mode = "server" /\ \E x \in ReqIdx : InitWith(c, ReqWire(x))
                \/ c.mode = "client" /\ \E x \in RespIdx : InitWith(c, RespWire(x))
+               \/ c.mode = "server" /\ c.decompress /\ \E g \in MCGz, fr \in {"cl", "ch"}, t \in TAILs : InitWith(c, GzWire(g, fr, t))
           /\ full = FullParse(cfg, wire)
 MCNext == Next /\ UNCHANGED full
 MCSpec == MCInit /\ [][MCNext]_<<vars, step, full>>
 MCView == <<vars, full>>
+(* C04: the limits only ever refuse: a run that is not refused for a size is the run without limits,
+   and a refusal closes (checked on the one-piece run of every (cfg, wire), i.e. in the initial states) *)
+LimitCauses == {"hdrsize", "bodysize", "gzsize"}
+LimitsOnlyRefuse ==
+    buf = <<>> =>
+        LET a == OneShot(cfg, wire, TRUE)
+            b == OneShot([cfg EXCEPT !.maxBody = Huge, !.maxHdr = Huge, !.override = None], wire, TRUE) IN
+        /\ a.rej \notin LimitCauses => (Msgs(a.ev) = Msgs(b.ev) /\ a.out = b.out /\ a.rej = b.rej)
+        /\ a.rej \in LimitCauses => (a.closed /\ b.rej # a.rej)
 (* C05 "closing all server connections completes": under weak fairness of Shutdown a connection the
    server may shut down ends up closed (checked without VIEW: MCL_HttpReader.cfg) *)
 MCLive == MCInit /\ [][MCNext]_<<vars, step, full>> /\ WF_<<vars, step, full>>(Shutdown /\ UNCHANGED full)
